@@ -485,7 +485,7 @@ class RecOutput:
         self.flushed = self.flushed + 1
 
 
-def wiring_check(vrl, n1, n2, a, b, c, chunk, default_chunk):
+def wiring_check(vrl, n1, n2, a, b, c, chunk, default_chunk, declared=None):
     w = DLISWriter.__new__(DLISWriter)
     mem = MemWriter()
     w._byte_writer = mem
@@ -495,6 +495,9 @@ def wiring_check(vrl, n1, n2, a, b, c, chunk, default_chunk):
     log = []
     sizes = [a, b, c]
     recs = [RecRecord('p', sizes[:n1], log), RecRecord('q', sizes[:n2], log)]
+    if declared is not None:
+        # the way DLISFile.write hands the records over: a generator with a declared (approximate) length
+        recs = SizedGenerator((r for r in recs), declared)
     RecOutput.instances = []
     real_bo = writer_mod.BufferedOutput
     writer_mod.BufferedOutput = RecOutput
@@ -548,6 +551,31 @@ def ob_wiring(vrl: int, n1: int, n2: int, a: int, b: int, c: int, chunk: int, de
     return wiring_check(vrl, n1, n2, a, b, c, chunk, default_chunk)
 
 
+def ob_sized_wiring(vrl: int, n1: int, n2: int, a: int, declared: int) -> int:
+    """
+    The records arrive as a SizedGenerator whose declared length is only the progress-bar maximum (DLISFile counts
+    objects, not records): whatever it says (at least the number of records: a smaller maximum makes the progress bar raise, see
+    ob_declared_count) every record is written.
+    pre: 20 <= vrl <= 16384 and vrl % 2 == 0
+    pre: 0 <= n1 <= 3 and 0 <= n2 <= 3
+    pre: 16 <= a <= vrl - 4
+    pre: 2 <= declared <= 6
+    post: _ == 0
+    """
+    return wiring_check(vrl, n1, n2, a, a, a, vrl, True, declared)
+
+
+def reach_sized_wiring(vrl: int, n1: int, n2: int, a: int, declared: int) -> int:
+    """
+    pre: 20 <= vrl <= 16384 and vrl % 2 == 0
+    pre: 0 <= n1 <= 3 and 0 <= n2 <= 3
+    pre: 16 <= a <= vrl - 4
+    pre: 2 <= declared <= 6
+    post: _ != 0
+    """
+    return wiring_check(vrl, n1, n2, a, a, a, vrl, True, declared)
+
+
 def reach_wiring(vrl: int, n1: int, n2: int, a: int, b: int, c: int, chunk: int, default_chunk: bool) -> int:
     """
     pre: 20 <= vrl <= 16384 and vrl % 2 == 0
@@ -560,6 +588,7 @@ def reach_wiring(vrl: int, n1: int, n2: int, a: int, b: int, c: int, chunk: int,
 
 
 # ------------------------------------------------------------------------------------- DLISFile.write wiring
+from dliswriter.utils.internal.sized_generator import SizedGenerator  # noqa: E402
 import dliswriter.file.file as file_mod
 from dliswriter.file.file import DLISFile
 from dliswriter.logical_record.misc.storage_unit_label import StorageUnitLabel
